@@ -118,11 +118,24 @@ func SetField(rng *Rand, mv reflect.Value, pf *ref.PField, o *FileGenOpts) {
 		t := time.Unix(ref.FitEpochUnix+int64(sec), 0).UTC()
 		// the same instant expressed in another location (time.Now() in a non-UTC process, a
 		// parsed RFC 3339 string with an offset ...): a UTC field stores the instant
-		switch rng.Intn(6) {
+		switch rng.Intn(8) {
 		case 0:
 			t = t.In(time.FixedZone("GENUTC", (rng.Intn(29)-14)*3600+rng.Intn(4)*900))
 		case 1:
 			t = t.In(time.Local)
+		case 2, 3:
+			// a zone from the zone database; half of these within two hours of one of its
+			// daylight-saving transitions (the hour that happens twice, the hour that is skipped)
+			if zs := TZZones(); len(zs) > 0 {
+				z := zs[rng.Intn(len(zs))]
+				if tr := TZTransitions(z); len(tr) > 0 && rng.Chance(1, 2) {
+					u := tr[rng.Intn(len(tr))] + int64(rng.Intn(14400)) - 7200
+					if s := u - ref.FitEpochUnix; s > 0 && s < 1<<32-2 {
+						t = time.Unix(u, 0)
+					}
+				}
+				t = t.In(z)
+			}
 		}
 		fv.Set(reflect.ValueOf(t))
 		return
@@ -133,7 +146,24 @@ func SetField(rng *Rand, mv reflect.Value, pf *ref.PField, o *FileGenOpts) {
 			off = 0
 		}
 		wall := int64(86400 + rng.U64()%(1<<32-2*86400))
+		if rng.Chance(1, 12) {
+			// the first day after the FIT epoch: east of Greenwich the instant lies before the epoch
+			wall = int64(1 + rng.Intn(86399))
+		}
 		t := time.Unix(ref.FitEpochUnix+wall-int64(off), 0).In(time.FixedZone("GEN", off))
+		if zs := TZZones(); len(zs) > 0 && rng.Chance(1, 6) {
+			// wall-clock reading in a zone from the zone database, half of them near a transition
+			z := zs[rng.Intn(len(zs))]
+			u := t.Unix()
+			if tr := TZTransitions(z); len(tr) > 0 && rng.Chance(1, 2) {
+				u = tr[rng.Intn(len(tr))] + int64(rng.Intn(14400)) - 7200
+			}
+			zt := time.Unix(u, 0).In(z)
+			_, zo := zt.Zone()
+			if w := u - ref.FitEpochUnix + int64(zo); w > 0 && w < 1<<32-2 {
+				t = zt
+			}
+		}
 		fv.Set(reflect.ValueOf(t))
 		return
 	case ref.KLat:
